@@ -7,6 +7,7 @@ import (
 
 	_ "github.com/crossplane/crossplane/verifsim/props/c01"
 	_ "github.com/crossplane/crossplane/verifsim/props/c03"
+	_ "github.com/crossplane/crossplane/verifsim/props/c06"
 	_ "github.com/crossplane/crossplane/verifsim/props/c12"
 )
 
